@@ -144,6 +144,7 @@ type caCtx struct {
 	datas            [][]byte
 	batch            bool
 	echo             bool // the genuine server uses SCID = the client's original DCID
+	forceVN          []uint32 // next VN: exactly this list, well-formed
 	forceGoodRetry   bool // next Retry: valid tag for the original DCID, foreign SCID
 	clientKind       string
 	srvTPDone        bool // a server closes earlyConnReadyChan when it accepts transport parameters: only once
@@ -323,9 +324,17 @@ func (c *caCtx) doVN() bool {
 	for i := 0; i < n; i++ {
 		vers = append(vers, cand[c.r.Intn(len(cand))])
 	}
+	forced := c.forceVN != nil
+	if forced {
+		vers, c.forceVN = c.forceVN, nil
+	}
 	data := quic.VerifVNPacket(byte(c.r.Intn(128))|0x40, c.p.C, c.pick(c.p.O, c.p.A1, before.DCID), vers)
 	parseOK := true
-	switch c.r.Intn(12) {
+	sel := c.r.Intn(12)
+	if forced {
+		sel = 11
+	}
+	switch sel {
 	case 0:
 		data = data[:len(data)-c.r.Range(1, 3)]
 		parseOK = false
@@ -498,6 +507,12 @@ func (c *caCtx) doTP() bool {
 			hasR, rscid = true, c.pick(c.p.R1, c.p.R2, c.p.A1, before.DCID)
 		}
 	}
+	return c.doTPWith(iscid, odcid, hasR, rscid)
+}
+
+// doTPWith: the peer's transport parameters with these connection IDs reach the connection
+func (c *caCtx) doTPWith(iscid, odcid []byte, hasR bool, rscid []byte) bool {
+	before := c.ca.State()
 	cls := c.ca.HandleTP(iscid, odcid, hasR, rscid)
 	if c.server && cls == "" {
 		c.srvTPDone = true
@@ -855,6 +870,133 @@ func inBubbleWatchdog(f func(), wall time.Duration) error {
 
 var _ = synctest.Wait
 
+// Fixed table, run on every seed: a client (plain and spec-driven) that did / did not perform a Retry and has
+// authenticated the server's first packet receives transport parameters with every combination of
+// initial_source_connection_id {right, wrong} x original_destination_connection_id {right, wrong, missing} x
+// retry_source_connection_id {right, wrong, missing}. Monitor connaccept/cid-auth: accepted iff all three are what the
+// handshake authenticated (retry SCID absent iff no Retry), else TRANSPORT_PARAMETER_ERROR.
+func runConnAcceptTPTable(w *bufio.Writer, r *u.Rng, dist map[string]int) {
+	for _, kind := range []string{"plain", "Chrome_115_IPv4"} {
+		for _, retry := range []bool{true, false} {
+			for isc := 0; isc < 2; isc++ {
+				for od := 0; od < 3; od++ {
+					for rs := 0; rs < 3; rs++ {
+						cr := r.Fork()
+						c := &caCtx{r: cr, w: w, version: caV1, versions: []uint32{caV1}, clientKind: kind}
+						c.p = caPool{O: cr.Bytes(cr.Range(8, 20)), C: cr.Bytes(4), R1: cr.Bytes(cr.Range(4, 20)), R2: cr.Bytes(cr.Range(4, 20)), S1: cr.Bytes(cr.Range(4, 20)), S2: cr.Bytes(4), A1: cr.Bytes(cr.Range(1, 20))}
+						o := quic.VerifCAOpts{DCID: c.p.O, SCID: c.p.C, Version: quic.Version1, Versions: []quic.Version{quic.Version1}}
+						if kind != "plain" {
+							if sp, err := specFor(kind); err == nil {
+								o.Spec = sp
+							}
+						}
+						ca, err := quic.VerifNewCA(o)
+						if err != nil {
+							fmt.Fprintf(w, "MONFAIL\tconnaccept/construct\t%v\tkind=%s\n", err, kind)
+							continue
+						}
+						c.ca = ca
+						init := ca.State()
+						done := false
+						if retry {
+							c.forceGoodRetry = true
+							done = c.doRetry()
+						}
+						if !done {
+							done = c.doGenuine()
+						}
+						if !done {
+							st := ca.State()
+							iscid := [][]byte{st.HsDCID, c.p.A1}[isc]
+							odcid := [][]byte{c.p.O, st.HsDCID, nil}[od]
+							rscid := [][]byte{st.RetrySCID, c.p.A1, nil}[rs]
+							if !retry {
+								rscid = [][]byte{c.p.R1, c.p.A1, nil}[rs] // "right" does not exist without a Retry: only absence is
+							}
+							if bytes.Equal(odcid, c.p.O) && od == 1 {
+								odcid = c.p.A1
+							}
+							c.doTPWith(iscid, odcid, rs != 2, rscid)
+						}
+						vs := []string{u.ZU(uint64(caV1))}
+						initTerm := u.App("CClient", u.ZU(uint64(caV1)), u.List(vs), "false", u.Hex(c.p.O), u.Hex(init.Token))
+						terms := make([]string, len(c.steps))
+						descs := make([]string, len(c.steps))
+						for i, st := range c.steps {
+							terms[i] = u.App("St", st.opTerm, u.Hex(st.okey), u.Hex(st.otag), "("+st.out+")", caObs(st.st))
+							descs[i] = st.desc + "=>" + st.out
+						}
+						fmt.Fprintf(w, "CASE 1 %s\n", u.App("CaseSeq", initTerm, caObs(init), u.List(terms)))
+						detail := fmt.Sprintf("table kind=%s retry=%v iscid=%d odcid=%d rscid=%d O=%x: %s", kind, retry, isc, od, rs, c.p.O, strings.Join(descs, " ; "))
+						for _, f := range c.fails {
+							fmt.Fprintf(w, "MONFAIL\t%s\t%s\t%s\n", f.key, f.desc, detail)
+						}
+						dist["tp-table"]++
+					}
+				}
+			}
+		}
+	}
+}
+
+// Fixed table for the Version Negotiation guards: {first dial, connection re-created after a negotiation} x
+// {before, after the first authenticated packet} x VN list {a version we also speak, only foreign versions, ours}.
+func runConnAcceptVNTable(w *bufio.Writer, r *u.Rng, dist map[string]int) {
+	for _, kind := range []string{"plain", "Chrome_115_IPv4"} {
+		for _, negotiated := range []bool{false, true} {
+			for _, afterFirst := range []bool{false, true} {
+				for li := 0; li < 3; li++ {
+					cr := r.Fork()
+					c := &caCtx{r: cr, w: w, version: caV1, versions: []uint32{caV1, caV2}, clientKind: kind}
+					if negotiated {
+						c.version = caV2
+					}
+					c.p = caPool{O: cr.Bytes(cr.Range(8, 20)), C: cr.Bytes(4), R1: cr.Bytes(8), R2: cr.Bytes(8), S1: cr.Bytes(8), S2: cr.Bytes(4), A1: cr.Bytes(8)}
+					o := quic.VerifCAOpts{DCID: c.p.O, SCID: c.p.C, Version: quic.Version(c.version), Versions: []quic.Version{quic.Version1, quic.Version2}, HasNegotiated: negotiated}
+					if kind != "plain" {
+						if sp, err := specFor(kind); err == nil {
+							o.Spec = sp
+						}
+					}
+					ca, err := quic.VerifNewCA(o)
+					if err != nil {
+						fmt.Fprintf(w, "MONFAIL\tconnaccept/construct\t%v\tkind=%s\n", err, kind)
+						continue
+					}
+					c.ca = ca
+					init := ca.State()
+					done := false
+					if afterFirst {
+						done = c.doGenuine()
+					}
+					if !done {
+						other := caV2
+						if c.version == caV2 {
+							other = caV1
+						}
+						c.forceVN = [][]uint32{{other, caVBad}, {caVBad, caVOld}, {caVBad, c.version}}[li]
+						c.doVN()
+					}
+					vs := []string{u.ZU(uint64(caV1)), u.ZU(uint64(caV2))}
+					initTerm := u.App("CClient", u.ZU(uint64(c.version)), u.List(vs), u.B(negotiated), u.Hex(c.p.O), u.Hex(init.Token))
+					terms := make([]string, len(c.steps))
+					descs := make([]string, len(c.steps))
+					for i, st := range c.steps {
+						terms[i] = u.App("St", st.opTerm, u.Hex(st.okey), u.Hex(st.otag), "("+st.out+")", caObs(st.st))
+						descs[i] = st.desc + "=>" + st.out
+					}
+					fmt.Fprintf(w, "CASE 1 %s\n", u.App("CaseSeq", initTerm, caObs(init), u.List(terms)))
+					detail := fmt.Sprintf("table kind=%s negotiated=%v afterFirst=%v list=%d: %s", kind, negotiated, afterFirst, li, strings.Join(descs, " ; "))
+					for _, f := range c.fails {
+						fmt.Fprintf(w, "MONFAIL\t%s\t%s\t%s\n", f.key, f.desc, detail)
+					}
+					dist["vn-table"]++
+				}
+			}
+		}
+	}
+}
+
 func runConnAccept(w *bufio.Writer, seed uint64, n int, args []string) {
 	r := u.NewRng(seed)
 	dist := map[string]int{}
@@ -877,6 +1019,10 @@ func runConnAccept(w *bufio.Writer, seed uint64, n int, args []string) {
 			}()
 			runOneConnAccept(w, cr, i, dist)
 		}()
+	}
+	if only < 0 {
+		runConnAcceptTPTable(w, u.NewRng(seed^0x7ab1e), dist)
+		runConnAcceptVNTable(w, u.NewRng(seed^0x7ab1f), dist)
 	}
 	// timer cases
 	nt := n / 40
